@@ -152,6 +152,22 @@ def linear(ctx, prog):
                     off = sym.mk_bin("Add", off, ln[0]) if ln else ("?",)
                 if ret:
                     want_ret.append(r)
+        # a value read for a `_` / `..` part is dropped at once: its drop comes before the next part is read
+        # (not at the end of the enclosing block, where parts would be dropped late and in reverse order)
+        if want_ret is not None:
+            ret_set = [repr(x) for x in want_ret]
+            seq = [e for e in p.events if e[0] == "drop" or (e[0] == "call" and e[1] in ("core::ptr::read", "core::ptr::read_unaligned"))]
+            for i, e in enumerate(seq):
+                if e[0] != "call":
+                    continue
+                rt = table.strip_gargs(e[2])
+                if repr(rt) in ret_set:
+                    continue
+                later_reads = [j for j in range(i + 1, len(seq)) if seq[j][0] == "call"]
+                my_drops = [j for j in range(len(seq)) if seq[j][0] == "drop" and table.strip_gargs(seq[j][1]) == rt]
+                if my_drops and later_reads and min(my_drops) > later_reads[0]:
+                    msgs.append("the value read for an unbound part (%s) is dropped only after later parts have been read: `_` parts must be dropped immediately"
+                                % show(rt[3]))
         # drops: only values that were read out (bindings `_` / unused) - never the container or its source
         for d in drops:
             v = table.strip_gargs(d[1])
